@@ -73,12 +73,15 @@ func c10Pool(i, token int) common.Address {
 		return common.Address{}
 	case i == 6:
 		return distrModAddr
-	default:
+	case i == 7:
 		return freshAddr
+	default:
+		// the module account the precompiles use as a transit account for burns
+		return cpctypes.CpcModuleAddress
 	}
 }
 
-const c10PoolSize = 8
+const c10PoolSize = 9
 
 func forwarderCode(target common.Address) string {
 	a := evmgen.NewAsm()
